@@ -405,12 +405,23 @@ class Circuit(object):
             flags[k.lower()] = kw[k]
         return flags
 
+    def _notify(self, func, *args, **kw):
+        """
+        Internal helper. Calls the ICircuitListener function 'func' on
+        every listener, guarding around errors (one listener's
+        exception must not keep the others from hearing about it).
+        """
+        for x in list(self.listeners):
+            try:
+                getattr(x, func)(self, *args, **kw)
+            except Exception:
+                log.err()
+
     def update(self, args):
         # print "Circuit.update:",args
         if self.id is None:
             self.id = int(args[0])
-            for x in list(self.listeners):
-                x.circuit_new(self)
+            self._notify('circuit_new')
 
         else:
             if int(args[0]) != self.id:
@@ -426,16 +437,14 @@ class Circuit(object):
 
         if self.state == 'LAUNCHED':
             self.path = []
-            for x in list(self.listeners):
-                x.circuit_launched(self)
+            self._notify('circuit_launched')
         else:
             if self.state != 'FAILED' and self.state != 'CLOSED':
                 if len(args) > 2:
                     self.update_path(args[2].split(','))
 
         if self.state == 'BUILT':
-            for x in list(self.listeners):
-                x.circuit_built(self)
+            self._notify('circuit_built')
             self._when_built.fire(self)
 
         elif self.state == 'CLOSED':
@@ -454,8 +463,7 @@ class Circuit(object):
                 )
             flags = self._create_flags(kw)
             self.maybe_call_closing_deferred()
-            for x in list(self.listeners):
-                x.circuit_closed(self, **flags)
+            self._notify('circuit_closed', **flags)
 
         elif self.state == 'FAILED':
             if len(self.streams) > 0:
@@ -463,8 +471,7 @@ class Circuit(object):
                                      (self.state, len(self.streams))))
             flags = self._create_flags(kw)
             self.maybe_call_closing_deferred()
-            for x in list(self.listeners):
-                x.circuit_failed(self, **flags)
+            self._notify('circuit_failed', **flags)
 
     def maybe_call_closing_deferred(self):
         """
@@ -505,8 +512,7 @@ class Circuit(object):
             self.path.append(router)
             # if the path grew, notify listeners
             if len(self.path) > oldpath_len:
-                for x in list(self.listeners):
-                    x.circuit_extend(self, router)
+                self._notify('circuit_extend', router)
                 oldpath_len = len(self.path)
 
     def __str__(self):
